@@ -48,10 +48,28 @@ pub struct Outcome {
     pub err_class: String,
     pub err_msg: String,
     pub steps: u64,
+    /// largest number of VM instructions executed inside one host-visible step()
+    pub max_work_per_step: u64,
+    pub max_call_depth: usize,
+}
+
+pub fn summary_json(interp: &Interpreter) -> serde_json::Value {
+    let s = interp.verif_summary();
+    json!({"env_is_global": s.env_is_global, "env_guards": s.env_guards, "call_stack": s.call_stack, "active_vm": s.active_vm,
+           "pending_orders": s.pending_orders, "cancelled_orders": s.cancelled_orders, "order_responses": s.order_responses,
+           "suspended_for_order": s.suspended_for_order, "waiting_contexts": s.waiting_contexts,
+           "pending_program": s.pending_program, "pending_module_sources": s.pending_module_sources})
+}
+
+pub fn hooks_json() -> serde_json::Value {
+    let c = tsrun::verif_hooks::snapshot();
+    json!({"vm_instructions": c.vm_instructions, "max_run_depth": c.max_run_depth, "parser_advances": c.parser_advances,
+           "lexer_tokens": c.lexer_tokens, "stale_events": c.stale_events})
 }
 
 pub fn run_program(interp: &mut Interpreter, src: &str, path: Option<&str>, max_steps: u64, use_eval: bool) -> Outcome {
-    let mut out = Outcome { status: String::new(), value: String::new(), err_class: String::new(), err_msg: String::new(), steps: 0 };
+    let mut out = Outcome { status: String::new(), value: String::new(), err_class: String::new(), err_msg: String::new(), steps: 0,
+                            max_work_per_step: 0, max_call_depth: 0 };
     let mp = path.map(|p| ModulePath::new(p.to_string()));
     let first = if use_eval { interp.eval(src, mp) } else { interp.prepare(src, mp) };
     let mut cur = first;
@@ -70,7 +88,16 @@ pub fn run_program(interp: &mut Interpreter, src: &str, path: Option<&str>, max_
                     out.status = "steplimit".into();
                     return out;
                 }
+                let before = tsrun::verif_hooks::snapshot().vm_instructions;
                 cur = interp.step();
+                let work = tsrun::verif_hooks::snapshot().vm_instructions - before;
+                if work > out.max_work_per_step {
+                    out.max_work_per_step = work;
+                }
+                let d = interp.call_depth();
+                if d > out.max_call_depth {
+                    out.max_call_depth = d;
+                }
             }
             Ok(StepResult::Complete(v)) => {
                 out.status = "complete".into();
@@ -142,17 +169,22 @@ pub fn main(args: &[String]) -> i32 {
         let _ = fout.flush();
         let log = Rc::new(RefCell::new(Vec::new()));
         let log2 = log.clone();
+        tsrun::verif_hooks::reset();
         let res = catch_unwind(AssertUnwindSafe(|| {
             let mut interp = Interpreter::with_console(Box::new(Capture(log2)));
             if let Some(t) = gc {
                 interp.set_gc_threshold(t);
             }
-            run_program(&mut interp, src, path.as_deref(), max_steps, use_eval)
+            let o = run_program(&mut interp, src, path.as_deref(), max_steps, use_eval);
+            interp.collect();
+            let live = interp.gc_stats().live_objects;
+            (o, summary_json(&interp), live)
         }));
         let j = match res {
-            Ok(o) => json!({"name": name, "status": o.status, "value": o.value, "class": o.err_class,
-                            "message": o.err_msg, "steps": o.steps, "log": *log.borrow()}),
-            Err(_) => json!({"name": name, "status": "panic", "log": *log.borrow()}),
+            Ok((o, summary, live)) => json!({"name": name, "status": o.status, "value": o.value, "class": o.err_class,
+                            "message": o.err_msg, "steps": o.steps, "log": *log.borrow(), "max_work_per_step": o.max_work_per_step,
+                            "max_call_depth": o.max_call_depth, "summary": summary, "live_after_collect": live, "hooks": hooks_json()}),
+            Err(_) => json!({"name": name, "status": "panic", "log": *log.borrow(), "hooks": hooks_json()}),
         };
         let _ = writeln!(fout, "{}", j);
         let _ = fout.flush();
